@@ -116,11 +116,11 @@ def comp_part(run, quick):
     run.cov["traces_validated_against_impl"] = run.cov.get("traces_validated_against_impl", 0) + n_ok
 
 
-def width_case(cx, r, signed, threshold, rng):
+def width_case(cx, r, signed, threshold, rng, raw=False):
     """widths/tilings along every rewrite path of one recipe; returns (symptom, detail) or None"""
     E = cx.E
     cx.conf.Cas.complexity = threshold
-    B = X.Builder(signed)
+    B = X.Builder(signed, raw=raw)
     want = X.r_size(r)
     try:
         e = B.build(r)
@@ -185,7 +185,8 @@ def worker(args):
         out["n"] += 1
         signal.alarm(20)
         try:
-            o = width_case(cx, r, signed, threshold, rng)
+            raw = rng.random() < 0.35
+            o = width_case(cx, r, signed, threshold, rng, raw=raw)
         except CaseTimeout:
             o = ("timeout|rewrite-path", "a rewrite path of this recipe did not terminate within 20 s")
         except Exception as x:
@@ -202,7 +203,7 @@ def worker(args):
             root = r[1] if r[0] in ("bin", "shc", "rot", "un") else r[0]
             key = o[0]
             if key not in out["finds"]:
-                out["finds"][key] = {"recipe": r, "signed": signed, "threshold": threshold, "detail": o[1]}
+                out["finds"][key] = {"recipe": r, "signed": signed, "threshold": threshold, "detail": o[1], "raw": raw}
     return out
 
 
@@ -222,7 +223,7 @@ def check(run):
     for f in sorted(glob.glob(str(common.VERIF / "corpus" / "C12" / "*.json"))):
         c = json.load(open(f))
         run.count(("corpus", f))
-        o = width_case(cxc, c01.tup(c["recipe"]), c["signed"], c["threshold"], random.Random(1))
+        o = width_case(cxc, c01.tup(c["recipe"]), c["signed"], c["threshold"], random.Random(1), raw=c.get("raw", False))
         if o is not None and o[0] != "skip":
             run.violation(o[0], "corpus case %s: %s" % (f.split("/")[-1], o[1][:120]), c)
     comp_part(run, quick)
@@ -242,7 +243,7 @@ def replay(path):
     obj = json.load(open(path))["replay"]
     cx = c01.Ctx()
     if "recipe" in obj:
-        o = width_case(cx, c01.tup(obj["recipe"]), obj["signed"], obj["threshold"], random.Random(0))
+        o = width_case(cx, c01.tup(obj["recipe"]), obj["signed"], obj["threshold"], random.Random(0), raw=obj.get("raw", False))
         print(o)
         return 1 if o and o[0] != "skip" else 0
     print(obj)
